@@ -456,3 +456,29 @@ Proof.
   intros H1 H2 E. pose proof (parse_tokens_fmt_tokens e1 H1) as P1.
   rewrite E, (parse_tokens_fmt_tokens e2 H2) in P1. injection P1 as <-. reflexivity.
 Qed.
+
+(* ---------------------------------------------------------------------------------------------- *)
+(* The exact text of micheline_to_michelson, inline or multi-line                                  *)
+(* ---------------------------------------------------------------------------------------------- *)
+Lemma lex_format_text inline e :
+  tags_ok e = true -> lex (format_text inline e) = LexOk (fmt_tokens e).
+Proof.
+  intro Ht. unfold format_text, fmt_tokens.
+  destruct (fmtx_root_ok inline (to_pnode e)) as [T E]. rewrite <- T.
+  apply lex_pieces.
+  - apply E. right. left. reflexivity.
+  - rewrite T. apply (fmt_tokens_wf e Ht).
+Qed.
+
+Lemma parse_format_text inline e : wf_expr e = true -> parse_text (format_text inline e) = TNode e.
+Proof.
+  intro He.
+  assert (Ht : tags_ok e = true).
+  { unfold wf_expr in He. apply andb_true_iff in He. destruct He as [He _].
+    apply andb_true_iff in He. apply He. }
+  pose proof (lex_format_text inline e Ht) as L.
+  destruct (fmt_root_head (to_pnode e)) as (t & r & Eh & Hne).
+  unfold parse_text. rewrite strip_parens_id.
+  - rewrite L. apply parse_tokens_fmt_tokens, He.
+  - apply (lex_head_not_lparen _ t r); [|exact Hne]. rewrite L. unfold fmt_tokens. rewrite Eh. reflexivity.
+Qed.
